@@ -6,6 +6,7 @@ import MakoModel.Inherit.LemmasMemo
 import MakoModel.Inherit.LemmasOnce
 import MakoModel.Inherit.LemmasCount
 import MakoModel.Inherit.Examples
+import MakoModel.Inherit.NsAttrsLink
 /-!
 # C06 – inheritance chains dispatch self/next/parent correctly; blocks render once
 
@@ -17,16 +18,16 @@ evaluating to `None`).
 
 Recorded defects (known_findings.json) and how they show here:
 
-* members named like an attribute of mako's `Namespace` objects (`Generated.NsAttrs.nsAttrs`: name, uri, module,
-  template, cache, filename, attr, inherits, callables, context, get_namespace, …) are not reachable through
-  `self/next/parent/local` and, as blocks, never render in a template that has a parent:
-  `member_dispatch_partial`, `render_follows_rules_partial`, `named_block_once_partial` carry the guard
-  "no such name is used"; `member_dispatch_counterexample`, `named_block_counterexample`.
-* two anonymous blocks on one source line are rejected as duplicates
+* F-C06-1: members named like an attribute of mako's `Namespace` objects (`Generated.NsAttrs.nsAttrs`: name, uri,
+  module, template, cache, filename, attr, inherits, callables, context, get_namespace, …) are not reachable
+  through `self/next/parent/local` and, as blocks, never render in a template that has a parent.  The guard
+  "the name is not such an attribute" (`x ∉ nsAttrs`, resp. `∀ x ∈ usedNames c, x ∉ nsAttrs`) is carried by
+  `member_dispatch_partial`, `member_call_binds_partial`, `render_follows_rules_partial`,
+  `named_block_position_partial`, `named_block_once_partial` and `named_block_once_count_partial`;
+  `member_dispatch_counterexample` and `named_block_counterexample` are the witnesses.  (The same table, hand-written
+  in the C07 model, is tied to the regenerated one in `Inherit/NsAttrsLink.lean`.)
+* F-C06-2: two anonymous blocks on one source line are rejected as duplicates
   (`block_checks_partial` guard `(allAnonLinesL l).Nodup`; `block_checks_counterexample_anonymous`).
-
-Repaired: a named block inside a def that a later def of the same name replaces was never checked (F-C06-3,
-/repo 14dadc4): the guard on def names is gone, `block_checks_replaced_def` is the regression theorem.
 
 OPEN (full-strength statements, false for the code as it is):
 ```
